@@ -752,7 +752,7 @@ func (e *Engine) runPath(s *State) (err error) {
 		if len(g.frames) == 0 || g.done {
 			// goroutine finished
 			g.done = true
-			if !e.schedule(s) {
+			if !e.schedule(s, true) {
 				e.pathsDone++
 				return nil
 			}
@@ -997,6 +997,13 @@ func (e *Engine) invoke(s *State, f *Frame, fnv Value, method *types.Func, args 
 		}
 		fn = fv.Fn
 		bindings = fv.Bindings
+	}
+	// harness-level stubs
+	if s.redirects != nil {
+		if rv, ok := s.redirects[fn.String()]; ok {
+			fn = rv.Fn
+			bindings = rv.Bindings
+		}
 	}
 	// redirects to Go models in verifrt
 	if to, ok := redirects[fn.String()]; ok {
